@@ -146,8 +146,8 @@ def run(ctx):
                 r4.ok(inst["construct"], inst["detail"], inst["where"])
     r5 = ctx.rule("R5", "composition: every not-complete prerequisite is handed over (C02.R2) and its state is the scheduler's live view (C08.R3)", min_instances=4)
     from .shared import import_rules
-    import_rules(ctx, r5, "C02", only={"R2", "R1b"})
-    import_rules(ctx, r5, "C08", only={"R3"})
+    import_rules(ctx, r5, "C02", only={"R1", "R2", "R1b"})
+    import_rules(ctx, r5, "C08", only={"R2", "R3"})
 
 
 def rule_tracked_dump(ctx, r):
